@@ -431,6 +431,12 @@ def r4(ctx: Ctx, rep: Report, fams):
                         rep.check(not bad, "C01.R4", "callee:%s->%s" % (fn.short, c.short), fn.loc(n),
                                   "callee %s contains no raise" % c.short,
                                   bad="%s calls %s which raises" % (fn.short, c.short))
+                        for tb in [x for x in ast.walk(c.node) if isinstance(x, ast.Call) and isinstance(x.func, ast.Attribute) and x.func.attr == "to_bytes"]:
+                            okb, whyb = _to_bytes_total(prog, c, tb)
+                            rep.check(okb, "C01.R4", "to_bytes:%s->%s" % (fn.short, c.short), c.loc(tb),
+                                      "to_bytes in %s cannot overflow (%s)" % (c.short, whyb),
+                                      bad="%s calls %s whose %s raises OverflowError for large inputs (%s): the validator fails with an undocumented outcome" % (
+                                          fn.short, c.short, norm(tb)[:60], whyb))
                 elif nm.startswith("logger.") or nm in TOTAL_CALLS:
                     pass
                 elif nm == "int" :
@@ -444,6 +450,24 @@ def r4(ctx: Ctx, rep: Report, fams):
                     raise AnalysisError("unclassified primitive %s in validator %s (%s)" % (nm, fn.short, fn.loc(n)))
             elif isinstance(n, ast.BinOp) and isinstance(n.op, (ast.Div, ast.FloorDiv, ast.Mod)):
                 raise AnalysisError("division in validator %s (%s) is not modelled" % (fn.short, fn.loc(n)))
+
+
+def _to_bytes_total(prog, fn, call):
+    """x.to_bytes(n, ...) is total iff x is reduced to n bytes (x & (256**n - 1) or x % 256**n)."""
+    sym = Sym.for_function(prog, fn)
+    t = sym.lin(call).single_term()
+    if t is None or t[0] != "tobytes" or t[2] is None:
+        return False, "shape not understood"
+    operand, n, signed = t[1], t[2], t[4]
+    if signed:
+        return False, "signed conversion of an unreduced value"
+    if operand[0] == "call" and operand[1] == "BitAnd":
+        masks = [o[1].const for o in operand[2] if o[0] == "lin" and o[1].is_const()]
+        if masks and 0 <= masks[0] < 256 ** n:
+            return True, "operand masked with 0x%X" % int(masks[0])
+    if operand[0] == "lin" and operand[1].is_const() and 0 <= operand[1].const < 256 ** n:
+        return True, "constant"
+    return False, "the operand is not reduced to %d bytes" % n
 
 
 def _is_hex(s: str) -> bool:
